@@ -87,6 +87,7 @@ type Contract struct {
 	HasMod    bool
 	Loops     map[int]*LoopSpec
 	Ghosts    []*GhostAssign // ghost updates executed at every return
+	Callsites map[string][]*Clause // callee key -> assertions checked at each call to it
 	Trusted   bool
 	Inline    bool // force inlining at call sites (no modular use)
 	NoPanic   bool
@@ -103,6 +104,11 @@ type SpecFunc struct {
 	Sort   string // result sort for recursive functions (Int/Bool)
 }
 
+type TypeInv struct {
+	Var  string
+	Expr *SExpr
+}
+
 type ModGroup struct {
 	Params  []string
 	Targets []*SExpr
@@ -114,12 +120,13 @@ type SpecDB struct {
 	Axioms    []*Clause
 	GhostSort map[string]string // ghost (global or field) name -> sort
 	ModGroups map[string]*ModGroup
+	TypeInvs  map[string]*TypeInv
 	Files     map[string]string // path -> sha256
 	PropFuncs map[string][]string
 }
 
 func newSpecDB() *SpecDB {
-	return &SpecDB{Contracts: map[string]*Contract{}, Funcs: map[string]*SpecFunc{}, GhostSort: map[string]string{}, ModGroups: map[string]*ModGroup{}, Files: map[string]string{}, PropFuncs: map[string][]string{}}
+	return &SpecDB{Contracts: map[string]*Contract{}, Funcs: map[string]*SpecFunc{}, GhostSort: map[string]string{}, ModGroups: map[string]*ModGroup{}, TypeInvs: map[string]*TypeInv{}, Files: map[string]string{}, PropFuncs: map[string][]string{}}
 }
 
 // ---- lexer ----
@@ -503,6 +510,20 @@ func (db *SpecDB) loadFile(path, pkgShort string, slashAt bool) error {
 				}
 				curLoop.Invariants = append(curLoop.Invariants, cl)
 			}
+		case "callsite":
+			// callsite <calleeKey> [label] {props} expr
+			ck, r2 := splitWord(rest)
+			cl, err := parseClause(r2, pos)
+			if err != nil {
+				return err
+			}
+			if len(cl.Props) == 0 {
+				cl.Props = cur.Props
+			}
+			if cur.Callsites == nil {
+				cur.Callsites = map[string][]*Clause{}
+			}
+			cur.Callsites[ck] = append(cur.Callsites[ck], cl)
 		case "decreases":
 			e, err := parseExpr(rest, pos)
 			if err != nil {
@@ -580,6 +601,17 @@ func (db *SpecDB) loadFile(path, pkgShort string, slashAt bool) error {
 				sf.Sort = SBool
 			}
 			db.Funcs[sf.Name] = sf
+			cur = nil
+		case "typeinv":
+			// typeinv <typeKey> <var> : expr
+			tk, r2 := splitWord(rest)
+			vn, r3 := splitWord(r2)
+			r3 = strings.TrimSpace(strings.TrimPrefix(strings.TrimSpace(r3), ":"))
+			e, err := parseExpr(r3, pos)
+			if err != nil {
+				return err
+			}
+			db.TypeInvs[tk] = &TypeInv{Var: strings.TrimSuffix(vn, ":"), Expr: e}
 			cur = nil
 		case "modgroup":
 			// modgroup Name(p1, p2) = target, target, ...
